@@ -149,7 +149,7 @@ def oracle(case, impl_lines):
             if acc and l.startswith("ok tcp dom"):
                 # IP literals must be recognised as addresses, not as domain names
                 host = bytes.fromhex(l.split()[3]).decode("utf-8")
-                if re.match(r"^(25[0-5]|2[0-4]\d|1\d\d|[1-9]?\d)(\.(25[0-5]|2[0-4]\d|1\d\d|[1-9]?\d)){3}$", host):
+                if re.match(r"^(25[0-5]|2[0-4]\d|1\d\d|[1-9]?\d)(\.(25[0-5]|2[0-4]\d|1\d\d|[1-9]?\d)){3}$", host, re.ASCII):  # ASCII digits only: '٣' is not a digit of an IPv4 literal
                     return f"IPv4 literal {host!r} classified as a domain name"
         if w[0] in ("v6rt", "v4rt") and not l.endswith("re same"):
             return f"std::net law violated (sample): {op} -> {l}"
